@@ -198,6 +198,7 @@ pub fn flag_mask(key: &str, root_type: &str) -> Option<u64> {
         "field_flags" => rt::ift::PatchMapFieldPresenceFlags::all().bits() as u64,
         "format_flags" => rt::ift::EntryFormatFlags::all().bits() as u64,
         "palette_types_array[]" => rt::cpal::PaletteType::all().bits() as u64,
+        "explicit_format" => rt::gpos::ValueFormat::all().bits() as u64,
         "flags" => {
             if root_type.starts_with("AxisValue") || root_type == "Stat" {
                 rt::stat::AxisValueTableFlags::all().bits() as u64
@@ -227,10 +228,85 @@ fn num(n: i64) -> Value {
 }
 
 impl Mutator<'_> {
+    /// Coherent rewrite of every GPOS ValueRecord in `v`: one ValueFormat per
+    /// record role (value_record1 / value_record2 / others), fields and device
+    /// offsets filled or cleared to match it. Random single-site mutation almost
+    /// never builds a *consistent* record carrying several device tables.
+    fn coherent_value_records(&self, v: &mut Value, rng: &mut Rng) -> bool {
+        let f1 = rng.below(256);
+        let f2 = rng.below(256);
+        let explicit = rng.chance(2, 3);
+        let mut donors: Vec<Value> = vec![];
+        for k in ["x_placement_device", "y_placement_device", "x_advance_device", "y_advance_device"] {
+            for d in self.pools.donors(k) {
+                let d = if d.get("obj").is_some() { d.clone() } else { serde_json::json!({"obj": d}) };
+                if !d["obj"].is_null() && !donors.contains(&d) {
+                    donors.push(d);
+                }
+            }
+        }
+        fn walk(v: &mut Value, key: &str, f1: u64, f2: u64, explicit: bool, donors: &[Value], rng: &mut Rng, hit: &mut bool) {
+            match v {
+                Value::Object(m) => {
+                    if m.contains_key("explicit_format") && m.contains_key("x_placement") && m.contains_key("x_advance_device") {
+                        *hit = true;
+                        let f = if key == "value_record2" { f2 } else { f1 };
+                        let mut present = 0u64;
+                        for (k, b) in [("x_placement", 1u64), ("y_placement", 2), ("x_advance", 4), ("y_advance", 8)] {
+                            if f & b != 0 && (explicit && rng.chance(1, 8)) {
+                                // explicit format with an absent field: written as 0
+                                m.insert(k.into(), Value::Null);
+                            } else if f & b != 0 {
+                                m.insert(k.into(), num(*rng.pick(BOUNDARIES) as i16 as i64));
+                                present |= b;
+                            } else {
+                                m.insert(k.into(), Value::Null);
+                            }
+                        }
+                        for (k, b) in [("x_placement_device", 0x10u64), ("y_placement_device", 0x20), ("x_advance_device", 0x40), ("y_advance_device", 0x80)] {
+                            if f & b != 0 && !donors.is_empty() && !(explicit && rng.chance(1, 8)) {
+                                m.insert(k.into(), donors[rng.usize(donors.len())].clone());
+                                present |= b;
+                            } else {
+                                m.insert(k.into(), serde_json::json!({"obj": null}));
+                            }
+                        }
+                        let fmt = if explicit { serde_json::json!({"bits": f}) } else { Value::Null };
+                        // without an explicit format the written format is `present`;
+                        // keep records of one table identical in format by making
+                        // absent-but-selected fields impossible in that case
+                        let _ = present;
+                        m.insert("explicit_format".into(), fmt);
+                        return;
+                    }
+                    for (k, x) in m.iter_mut() {
+                        let ck: String = if transparent_key(k) { key.to_string() } else { k.clone() };
+                        walk(x, &ck, f1, f2, explicit, donors, rng, hit);
+                    }
+                }
+                Value::Array(a) => {
+                    for x in a {
+                        walk(x, key, f1, f2, explicit, donors, rng, hit);
+                    }
+                }
+                _ => {}
+            }
+        }
+        let mut hit = false;
+        walk(v, "", f1, f2, explicit, &donors, rng, &mut hit);
+        hit
+    }
+
     /// Apply `k` random mutations; returns a short description.
     pub fn mutate(&self, v: &mut Value, rng: &mut Rng) -> String {
         let k = 1 + [0usize, 0, 0, 1, 1, 2, 3][rng.usize(7)];
         let mut desc = String::new();
+        if rng.chance(1, 8) && self.coherent_value_records(v, rng) {
+            desc.push_str("coherent-value-records");
+            if rng.bool() {
+                return desc;
+            }
+        }
         for _ in 0..k {
             let mut path = String::new();
             let what = self.descend(v, "", rng, &mut path, 0);
